@@ -1,3 +1,4 @@
+import Props.SchedTie
 import TaskModel.Sched.MonC01
 import TaskModel.Sched.EnterLemmas
 /-!
